@@ -520,7 +520,9 @@ func (x *run) checkC12(failing map[int]bool) *Failure {
 				// progress; the owner waits for it and reports its failures too
 				wide := false
 				for _, co := range obs {
-					if co.Kind != "cancel" || co.StartSeq > g.from {
+					// a cancel before this call, or an explicit Close still in progress when it started
+					inProgress := co.Kind == "close" && co.StartSeq < g.from && co.EndSeq > g.from
+					if (co.Kind != "cancel" && !inProgress) || co.StartSeq > g.from {
 						continue
 					}
 					if g.kind == "close" && !x.subtreeOf(co.Scope)[g.scope] && !x.subtreeOf(g.scope)[co.Scope] {
